@@ -57,6 +57,9 @@ def case_rod(kind, n_elems, taper, bent, rot_idx, density, seed):
             grid.transfer_forcing_from_grid_to_body(body_flow_forces=F, body_flow_torques=T, lag_grid_forcing_field=f)
             states += 1
             f3 = _embed(f)
+            if not (np.all(np.isfinite(F[:d])) and np.all(np.isfinite(T if not kind.startswith("nodal2") else T))):
+                fails.append(Fail(f"{tag}:nonfinite", "non-finite body force / torque", marker=m, component=c))
+                continue
             net = F.sum(1) + f3.sum(1)
             if planar:
                 net_chk = net[:2] if kind != "edge" else net
@@ -132,6 +135,9 @@ def case_rigid(kind, rot_idx, origin_idx, vel_idx):
             grid.transfer_forcing_from_grid_to_body(body_flow_forces=F, body_flow_torques=T, lag_grid_forcing_field=f)
             states += 1
             f3 = _embed(f)
+            if not (np.all(np.isfinite(F)) and np.all(np.isfinite(T))):
+                fails.append(Fail(f"{tag}:nonfinite", "non-finite body force / torque", marker=m, component=c))
+                continue
             net = F[:, 0] + f3.sum(1)
             if np.abs(net).max() > 1e-13:
                 fails.append(Fail(f"{tag}:net-force", "net force on the rigid body is not minus the sum of marker forces", marker=m, component=c, residual=net.tolist(), rot=rot_idx))
